@@ -4,6 +4,8 @@
 (* zero-capacity channel, polled as a Stream.  The task is an arbitrary    *)
 (* program over                                                            *)
 (*   Y   yield one item (Sender::send: completes when the item is TAKEN)   *)
+(*   YA k yield_all of k items (send_all: each item waits for room, the    *)
+(*        final flush waits until the last one is TAKEN)                   *)
 (*   SW  wake itself and return Pending once (yield_once)                  *)
 (*   W g await an external gate g that the environment fires               *)
 (*   DH  drop the yield handle early                                       *)
@@ -23,7 +25,10 @@ vars == <<s, hist>>
 
 Op(p, i) == IF i <= Len(p) THEN p[i] ELSE [op |-> "R", g |-> 0]
 \* the value of the k-th yield is k
-NYieldsBefore(p, i) == Cardinality({j \in 1..(i - 1) : j <= Len(p) /\ p[j].op = "Y"})
+RECURSIVE NYieldsBefore(_, _)
+NYieldsBefore(p, i) == IF i <= 1 THEN 0
+                       ELSE NYieldsBefore(p, i - 1)
+                            + (IF i - 1 > Len(p) THEN 0 ELSE IF p[i - 1].op = "Y" THEN 1 ELSE IF p[i - 1].op = "YA" THEN p[i - 1].g ELSE 0)
 
 Init ==
   /\ \E p \in Programs :
@@ -45,6 +50,13 @@ Run(t) ==
                   [t EXCEPT !.q = Append(@, NYieldsBefore(t.prog, t.ip) + 1), !.parked = TRUE, !.sub = 1, !.sendW = TRUE,
                             !.woken = @ \/ t.recvW, !.recvW = FALSE]
              ELSE IF t.parked THEN [t EXCEPT !.sendW = TRUE]
+             ELSE Run([t EXCEPT !.ip = @ + 1, !.sub = 0])
+      [] o.op = "YA" ->
+           \* send_all: an item is started only when the sender is not parked; after the last one the flush waits
+           IF t.parked THEN [t EXCEPT !.sendW = TRUE]
+           ELSE IF t.sub < o.g
+             THEN Run([t EXCEPT !.q = Append(@, NYieldsBefore(t.prog, t.ip) + t.sub + 1), !.parked = TRUE, !.sub = @ + 1,
+                               !.woken = @ \/ t.recvW, !.recvW = FALSE])
              ELSE Run([t EXCEPT !.ip = @ + 1, !.sub = 0])
       [] o.op = "SW" ->
            IF t.sub = 0 THEN [t EXCEPT !.sub = 1, !.woken = TRUE] ELSE Run([t EXCEPT !.ip = @ + 1, !.sub = 0])
@@ -94,14 +106,14 @@ Items == SelectSeq(hist, LAMBDA h : h.a = "poll" /\ h.res = "item")
 \* every item exactly once, in emission order
 Ordered == \A i \in 1..Len(Items) : Items[i].v = i
 \* back-pressure: the task never runs past a yield whose item has not been taken
-BackPressure == NYieldsBefore(s.prog, s.ip) <= Len(Items) + (IF s.q # <<>> THEN 0 ELSE 0)
-                /\ (s.q # <<>> => Op(s.prog, s.ip).op = "Y" /\ s.sub = 1)
+BackPressure == NYieldsBefore(s.prog, s.ip) <= Len(Items)
+                /\ (s.q # <<>> => Op(s.prog, s.ip).op \in {"Y", "YA"} /\ s.sub >= 1)
 \* a finite run ends with exactly one completion, then end-of-stream forever
 Completion == /\ s.completes <= 1
               /\ (s.ended => s.completes = 1 /\ s.taskDone)
               /\ \A i \in 1..Len(hist) : hist[i].a = "poll" /\ hist[i].res = "none" =>
                     \A j \in (i + 1)..Len(hist) : hist[j].a = "poll" => hist[j].res = "none"
-              /\ (s.completes = 1 => Len(Items) = Cardinality({j \in 1..Len(s.prog) : s.prog[j].op = "Y"}))
+              /\ (s.completes = 1 => Len(Items) = NYieldsBefore(s.prog, Len(s.prog) + 1))
 \* no lost wake-up: a Pending stream that has not been woken is waiting for the environment (an unfired gate)
 NoLostWakeup == (s.last = "pending" /\ ~s.woken /\ ~s.dropped) =>
                    (~s.taskDone /\ Op(s.prog, s.ip).op = "W" /\ Op(s.prog, s.ip).g \notin s.gates)
